@@ -193,6 +193,8 @@ class Engine(object):
             out = VList(fr.yields)
             if '$ycnt' in fr.env:
                 out.ghost = {k: fr.env[k] for k in ('$ycnt', '$yany', '$ylast')}
+            if '$ypair' in fr.env:
+                out.ghost = {'$ypair': fr.env['$ypair']}
             return out
         return ret
 
